@@ -361,11 +361,18 @@ pub fn run(ctx: &Ctx) -> i32 {
     run_cases(ctx, &mut rep, "kalman", ctx.cases(400_000, 8_000_000), case_kalman);
     run_cases(ctx, &mut rep, "basic", ctx.cases(300_000, 6_000_000), case_basic);
     run_cases(ctx, &mut rep, "port", ctx.cases(150_000, 4_000_000), case_port);
+    // the real servo steering the real (overlay) clock of the daemon, against a grandmaster that may drift faster
+    // than the servo is allowed to follow
+    let workers = (ctx.threads as u64 / 2).clamp(2, 8);
+    let sum = crate::daemon::run_part(ctx, &mut rep, ctx.cases(workers, 8 * workers), workers);
+    if let Some(why) = &sum.skipped {
+        println!("note: end-to-end daemon part skipped ({}); the other parts are unaffected", why);
+    }
     finish(
         Finish {
             ctx,
             level: "exploration",
-            rule: "(kalman/basic) the filter is driven directly with generated, physically consistent measurement sequences (<= 200, thorough 1000 steps): sync / delay / peer-delay samples derived from a simulated offset (0 .. +-1e9 s), drift and path delay, with jitter, repeated identical samples, a different sample kind at exactly the same event time, event times running backwards, dt = 0, offset jumps, interleaved update() calls; Kalman configurations drawn around the default (positive thresholds and bounds, max_freq_offset 1..1000 ppm), BasicFilter gains in (0,1]; the clock fails set_frequency/step_clock on a generated schedule and the applied steps feed back into later samples. Oracle: every frequency finite and within +-max_freq_offset, every Kalman step >= step threshold - 1 ns, no panic (a non-finite value panics when converted to Duration), current_estimates() finite. (port) C08-style histories with the Kalman filter: at most one final frequency command (within the bound) in the call in which a port stops being slave and none afterwards. Non-trivial = the sequence contains an irregularity (identical sample, equal event time, time backwards, failing clock call) or a step / the port left slave; distinct by sequence.",
+            rule: "(kalman/basic) the filter is driven directly with generated, physically consistent measurement sequences (<= 200, thorough 1000 steps): sync / delay / peer-delay samples derived from a simulated offset (0 .. +-1e9 s), drift and path delay, with jitter, repeated identical samples, a different sample kind at exactly the same event time, event times running backwards, dt = 0, offset jumps, interleaved update() calls; Kalman configurations drawn around the default (positive thresholds and bounds, max_freq_offset 1..1000 ppm), BasicFilter gains in (0,1]; the clock fails set_frequency/step_clock on a generated schedule and the applied steps feed back into later samples. Oracle: every frequency finite and within +-max_freq_offset, every Kalman step >= step threshold - 1 ns, no panic (a non-finite value panics when converted to Duration), current_estimates() finite. (port) C08-style histories with the Kalman filter: at most one final frequency command (within the bound) in the call in which a port stops being slave and none afterwards. (daemon) the real statime daemon slaved for 20 s to a grandmaster played by the harness whose clock is offset by up to 0.5 s and drifts by up to +-300 ppm or by +-500..900 ppm (beyond the 400 ppm the servo may program); the daemon's clock is an overlay over the system clock, so daemon clock minus system clock, sampled from the Follow_Ups of the daemon's master port against kernel receive timestamps, has the programmed frequency as its slope and the steps as its jumps: every least-squares slope over a jump-free window of >= 3 s must be within +-415 ppm, every jump at least 0.85 ms. Non-trivial = the sequence contains an irregularity (identical sample, equal event time, time backwards, failing clock call) or a step / the port left slave; distinct by sequence.",
             assumptions: vec!["samples whose event time minus offset would be negative are skipped (physically impossible)".into()],
             min_nontrivial: 100,
         },
@@ -378,6 +385,7 @@ pub fn replay(ctx: &Ctx, path: &str) -> i32 {
     let s = std::fs::read_to_string(path).expect("read replay");
     let v: serde_json::Value = serde_json::from_str(&s).expect("parse");
     match v["part"].as_str().unwrap_or("kalman") {
+        "daemon" => crate::daemon::replay_part(ctx, path, 2),
         "basic" => replay_file(ctx, path, case_basic),
         "port" => replay_file(ctx, path, case_port),
         _ => replay_file(ctx, path, case_kalman),
